@@ -427,6 +427,34 @@ def check_prototype(program, rep):
               "bound to the first instance is reused for later instances' "
               'components', line=getattr(muts[0], 'lineno', f.node.lineno)
               if muts else f.node.lineno)
+    # an initialiser taken from init_methods runs outside any KeyError handler
+    # (a `try: return self.init_methods[T](T) / except KeyError:` also swallows
+    # a KeyError raised INSIDE the initialiser and silently falls back)
+    swallowed = None
+    for m in p.methods.values():
+        for t in ast.walk(m.node):
+            if not isinstance(t, ast.Try):
+                continue
+            catches = any(h.type is None or (dotted(h.type) or '').split(
+                '.')[-1] in ('KeyError', 'LookupError', 'Exception',
+                             'BaseException') for h in t.handlers)
+            if not catches:
+                continue
+            for s_ in t.body:
+                for c in ast.walk(s_):
+                    if isinstance(c, ast.Call) and isinstance(
+                            c.func, ast.Subscript) and norm(
+                                c.func.value) == 'self.init_methods':
+                        swallowed = swallowed or c
+    rep.check(swallowed is None, 'C19.prototype', site,
+              swallowed if swallowed is not None else 'initialiser call',
+              'the initialiser found in init_methods is not called inside a '
+              'KeyError handler',
+              'the initialiser looked up in init_methods is CALLED inside '
+              'the try whose KeyError handler implements the fallback: a '
+              'KeyError raised by the initialiser itself is swallowed and the '
+              'component is silently built by a lower-priority source',
+              line=getattr(swallowed, 'lineno', f.node.lineno))
     body = _body(f)
     # the products may be built by a private generator function of the
     # module: `return _make(self, iter(self.component_types))` is read as the
